@@ -114,17 +114,18 @@ theorem readFile_created (d x : Dir) (pats : List String)
 /-! ### normal form of a successful `load` -/
 
 /-- the inverse-whitening step on the directory after the spike-cluster step -/
-def wmiStep (inv : Arr → Arr) (d1 : Dir) : Option Arr × Dir :=
+def wmiStep (inv : Arr → Arr) (d1 : Dir) (e : Arr) : Option Arr × Dir :=
   match readFile d1 ["whitening_mat_inv.npy"] with
   | some a => (some (atleast 2 (squeeze (scrub a))), d1)
   | none =>
     match (readFile d1 ["whitening_mat.npy"]).map fun a => atleast 2 (squeeze (scrub a)) with
     | some w => ((none : Option Arr), d1 ++ [("whitening_mat_inv.npy", inv w)])
-    | none => (none, d1 ++ [("whitening_mat_inv.npy", ({ shape := [], data := [] } : Arr))])
+    | none => (none, d1 ++ [("whitening_mat_inv.npy", e)])
 
 /-- the view `load` returns, as a function of the time sources, the four mandatory arrays and the
 directory `d1` after the spike-cluster step -/
-def viewOf (inv : Arr → Arr) (d d1 : Dir) (times : TimeSrc) (samples : SampleSrc) (st sc cm pos : Arr) : View :=
+def viewOf (inv : Arr → Arr) (d d1 : Dir) (times : TimeSrc) (samples : SampleSrc) (st sc cm pos : Arr)
+    (e : Arr) : View :=
   { times := times, samples := samples,
     amplitudes := (readFile d ["amplitudes.npy", "spikes.amps*.npy"]).map fun a => squeeze (scrub a),
     spikeTemplates := squeeze (scrub st), spikeClusters := squeeze (scrub sc),
@@ -139,8 +140,8 @@ def viewOf (inv : Arr → Arr) (d d1 : Dir) (times : TimeSrc) (samples : SampleS
       | some _ => (readFile d1 ["template_ind.npy", "templates.waveformsChannels*.npy"]).map fun a => squeeze (scrub a)
       | none => none,
     wm := (readFile d1 ["whitening_mat.npy"]).map fun a => atleast 2 (squeeze (scrub a)),
-    wmi := (wmiStep inv d1).1,
-    similar := (readFile (wmiStep inv d1).2 ["similar_templates.npy"]).map fun a => atleast 2 (squeeze (scrub a)) }
+    wmi := (wmiStep inv d1 e).1,
+    similar := (readFile (wmiStep inv d1 e).2 ["similar_templates.npy"]).map fun a => atleast 2 (squeeze (scrub a)) }
 
 theorem d1Of_some (d : Dir) (f : String)
     (h : findPath d ["spike_clusters.npy", "spikes.clusters*.npy"] = some f) : d1Of d = d := by
@@ -159,9 +160,10 @@ theorem readFile_det (d : Dir) (pats : List String) (f : String) (a b : Arr)
   simp only [readFile, hf, ha, Option.some.injEq] at hb
   exact hb
 
-theorem load_nf (inv : Arr → Arr) (d : Dir) (v : View) (d' : Dir) (h : load inv d = .ok (v, d')) :
+theorem load_nf (inv : Arr → Arr) {one : Cell} (d : Dir) (v : View) (d' : Dir) (h : load inv d one = .ok (v, d')) :
     ∃ times samples st sc cm pos,
-      v = viewOf inv d (d1Of d) times samples st sc cm pos ∧ d' = (wmiStep inv (d1Of d)).2 ∧
+      v = viewOf inv d (d1Of d) times samples st sc cm pos (inv (eye one (v.channelMap.shape.headD 0))) ∧
+      d' = (wmiStep inv (d1Of d) (inv (eye one (v.channelMap.shape.headD 0)))).2 ∧
       ((∃ s, d.lookup "spike_times.npy" = some s ∧ times = .samplesOverRate (squeeze (scrub s)) ∧
           samples = .file (squeeze (scrub s)) ∧ monotone (scrub s).data = true) ∨
        (d.lookup "spike_times.npy" = none ∧ ∃ t, readFile d ["spikes.times*.npy"] = some t ∧
@@ -210,15 +212,15 @@ theorem readFile_d1Of (d : Dir) (pats : List String)
   · rw [h]
     exact readFile_append d _ pats (by simpa using hp)
 
-theorem wmiStep_fst (inv : Arr → Arr) (d1 : Dir) :
-    (wmiStep inv d1).1 = (readFile d1 ["whitening_mat_inv.npy"]).map fun a => atleast 2 (squeeze (scrub a)) := by
+theorem wmiStep_fst (inv : Arr → Arr) (d1 : Dir) (e : Arr) :
+    (wmiStep inv d1 e).1 = (readFile d1 ["whitening_mat_inv.npy"]).map fun a => atleast 2 (squeeze (scrub a)) := by
   unfold wmiStep
   split
   · next a ha => simp [ha]
   · next hn => split <;> simp [hn]
 
-theorem wmiStep_snd (inv : Arr → Arr) (d1 : Dir) :
-    (wmiStep inv d1).2 = d1 ∨ ∃ w, (wmiStep inv d1).2 = d1 ++ [("whitening_mat_inv.npy", w)] := by
+theorem wmiStep_snd (inv : Arr → Arr) (d1 : Dir) (e : Arr) :
+    (wmiStep inv d1 e).2 = d1 ∨ ∃ w, (wmiStep inv d1 e).2 = d1 ++ [("whitening_mat_inv.npy", w)] := by
   unfold wmiStep
   split
   · exact .inl rfl
@@ -226,12 +228,12 @@ theorem wmiStep_snd (inv : Arr → Arr) (d1 : Dir) :
     · exact .inr ⟨_, rfl⟩
     · exact .inr ⟨_, rfl⟩
 
-theorem readFile_d2 (inv : Arr → Arr) (d : Dir) (pats : List String)
+theorem readFile_d2 (inv : Arr → Arr) (d : Dir) (pats : List String) (e : Arr)
     (hp : ∀ p ∈ pats, ∀ g ∈ createdNames, globMatch p g = false) :
-    readFile (wmiStep inv (d1Of d)).2 pats = readFile d pats := by
+    readFile (wmiStep inv (d1Of d) e).2 pats = readFile d pats := by
   have h1 : readFile (d1Of d) pats = readFile d pats :=
     readFile_d1Of d pats fun p hp' => hp p hp' _ (by simp [createdNames])
-  rcases wmiStep_snd inv (d1Of d) with h | ⟨w, h⟩
+  rcases wmiStep_snd inv (d1Of d) e with h | ⟨w, h⟩
   · rw [h, h1]
   · rw [h, readFile_append (d1Of d) _ pats (by
       intro p hp' g hg
@@ -245,9 +247,10 @@ theorem not_mem_of_lookup_none (d : Dir) (f : String) (h : d.lookup f = none) : 
   rw [h] at ha
   cases ha
 
-theorem load_times (inv : Arr → Arr) (d : Dir) (v : View) (d' : Dir) (h : load inv d = .ok (v, d')) :
+theorem load_times (inv : Arr → Arr) {one : Cell} (d : Dir) (v : View) (d' : Dir) (h : load inv d one = .ok (v, d')) :
     ExpectedTimes d v.times v.samples := by
   obtain ⟨times, samples, st, sc, cm, pos, hv, -, ht, -⟩ := load_nf inv d v d' h
+  generalize inv (eye one (v.channelMap.shape.headD 0)) = e at hv
   subst hv
   simp only [viewOf]
   rcases ht with ⟨s, h1, h2, h3, -⟩ | ⟨h0, t, h1, h2, -, h3⟩
@@ -259,9 +262,10 @@ theorem load_times (inv : Arr → Arr) (d : Dir) (v : View) (d' : Dir) (h : load
       exact .inl ⟨g, s, hw', hl', h4⟩
     · exact .inr ⟨readFile_none d _ hn, h4⟩
 
-theorem load_values (inv : Arr → Arr) (d : Dir) (v : View) (d' : Dir) (h : load inv d = .ok (v, d')) :
+theorem load_values (inv : Arr → Arr) {one : Cell} (d : Dir) (v : View) (d' : Dir) (h : load inv d one = .ok (v, d')) :
     ∀ a : Attr, Expected d a (v.attr a) := by
   obtain ⟨times, samples, st, sc, cm, pos, hv, -, -, hst, hsc, hcm, hpos⟩ := load_nf inv d v d' h
+  generalize inv (eye one (v.channelMap.shape.headD 0)) = e at hv
   subst hv
   rw [readFile_d1Of d _ (by decide)] at hcm hpos
   intro a
@@ -311,13 +315,13 @@ theorem load_values (inv : Arr → Arr) (d : Dir) (v : View) (d' : Dir) (h : loa
     exact row_of_readFile d _ _
   case similar =>
     simp only [View.attr, viewOf, Expected]
-    rw [readFile_d2 inv d _ (by decide)]
+    rw [readFile_d2 inv d _ _ (by decide)]
     exact row_of_readFile d _ _
 
 /-! ### rejections -/
 
-theorem load_requires_mandatory (inv : Arr → Arr) (d : Dir) (a : Attr) (hm : a.mandatory = true)
-    (ha : Absent d a.files) (v : View) (d' : Dir) : load inv d ≠ .ok (v, d') := by
+theorem load_requires_mandatory (inv : Arr → Arr) {one : Cell} (d : Dir) (a : Attr) (hm : a.mandatory = true)
+    (ha : Absent d a.files) (v : View) (d' : Dir) : load inv d one ≠ .ok (v, d') := by
   intro h
   have he := load_values inv d v d' h a
   cases a <;> first | (cases hm; done) | skip
@@ -337,10 +341,10 @@ theorem readFile_of_wins_unique (d : Dir) (pats : List String) (f : String) (a :
     rw [hl] at hb
     exact hb.symm
 
-theorem load_rejects_nonmonotone_alf (inv : Arr → Arr) (d : Dir) (f : String) (t : Arr)
+theorem load_rejects_nonmonotone_alf (inv : Arr → Arr) {one : Cell} (d : Dir) (f : String) (t : Arr)
     (hks : "spike_times.npy" ∉ names d) (hu : GlobUnique d ["spikes.times*.npy"])
     (hw : Wins d ["spikes.times*.npy"] f) (hl : d.lookup f = some t)
-    (hm : monotone (scrub t).data = false) : load inv d = .error .nonMonotone := by
+    (hm : monotone (scrub t).data = false) : load inv d one = .error .nonMonotone := by
   have h0 : d.lookup "spike_times.npy" = none := lookup_none_of_not_mem d _ hks
   have h1 := readFile_of_wins_unique d _ f t hu hw hl
   simp only [load, bind, Except.bind, pure, Except.pure, throw, throwThe, MonadExceptOf.throw, h0, h1]
